@@ -32,11 +32,12 @@ func refBytesEq(a, b []byte) bool {
 	if len(a) != len(b) {
 		return false
 	}
-	ok := true
+	// no short-circuit: one term, not one branch per byte
+	var diff byte
 	for i := range a {
-		ok = ok && a[i] == b[i]
+		diff |= a[i] ^ b[i]
 	}
-	return ok
+	return diff == 0
 }
 
 // integrity algorithm numbers as on the wire: 1 HMAC-SHA1-96, 2 HMAC-MD5-128, 4 HMAC-SHA256-128
